@@ -1,4 +1,6 @@
 import GqlProofs.PlanReach
+import GqlProofs.PlanSerial2
+import GqlProofs.PlanDefer6
 import GqlProofs.ExecExample
 /-! # C01 — the refinement: what plan.go does (model M, `GqlModel/Plan.lean`) is what the algorithm prescribes (S, `GqlModel/Exec.lean`)
 
@@ -177,15 +179,44 @@ theorem plan_exec_eq_spec_nothunk (s : Schema) (doc : Document) (opName : String
     RespEq (execute s doc opName inputs w fuel) (run s doc opName inputs w fuel) :=
   run_respEq_execute s doc opName inputs w fuel rank hw hac hM
 
+/-- **plan_exec_eq_spec_partial** (the refinement WITH deferred values — data). For every schema, document whose fragment table has
+no spread cycle, operation name, variables, fuel and every world in which no deferred value yields a func directly (`flatWorld`):
+if the algorithm's response is outside the known finding D-04c (its `kfThunk` is empty: no deferred value fails, or yields null,
+under a non-null type) then `PlanQuery` + `ExecutePlan` answer in the same class (data / no data), and
+* whenever M's data can be read as a JSON value — no closure left in it — it IS the algorithm's data tree;
+* for a MUTATION it always can (every deferred value of a top-level field is forced depth-first before the next field), so the
+  data trees are equal.
+For a QUERY, that the breadth-first pass leaves no closure behind is not proved here (coverage invariant of the FIFO queue); the
+harness observes it on every case (a closure in the data makes the real result unserialisable: class `unserialisable`).
+Errors: not part of this statement (see the comment below). Premise on fuel: M did not run out of it. -/
+theorem plan_exec_eq_spec_partial (s : Schema) (doc : Document) (opName : String) (inputs : Vars) (w : World) (fuel : Nat)
+    (rank : String → Nat) (hw : flatWorld w = true) (hac : Acyclic doc.fragments rank)
+    (d : Option (List (String × JVal))) (errs : List (Path × Bool)) (log : List LogEntry)
+    (hS : execute s doc opName inputs w fuel = .result d errs log [])
+    (hM : run s doc opName inputs w fuel ≠ .fuelOut) :
+    ∃ md merrs mev, run s doc opName inputs w fuel = .result md merrs mev ∧
+      (d = none ↔ md = none) ∧
+      (∀ fs pfs js, d = some fs → md = some pfs → PVal.fieldsToJ? pfs = some js → js = fs) ∧
+      (∀ p, planQuery s doc opName = .ok p → p.isMutation = true →
+        ∀ fs pfs, d = some fs → md = some pfs → PVal.fieldsToJ? pfs = some fs) :=
+  run_data_eq_execute s doc opName inputs w fuel rank hw hac d errs log hS hM
+
 /- FULL statement of C01's refinement (`plan_exec_eq_spec`), NOT a theorem on the pinned tree:
 
      ∀ s doc opName inputs w fuel rank, Acyclic doc.fragments rank → run … ≠ .fuelOut →
        SameResponse (execute s doc opName inputs w fuel) (run s doc opName inputs w fuel)
 
-   where SameResponse = equal data and equal multisets of error paths. It fails exactly on the known finding D-04c (a deferred value
-   that fails, or yields null, under a NON-NULL type is forced after every recover scope is gone: the failure reaches the request
-   level). `d04c_negation_witness` below is the kernel-checked counterexample; the decidable predicate of the class is
-   `kfThunk ≠ []` of the algorithm's response. -/
+   where SameResponse = equal data and equal multisets of error paths. It fails
+   (a) on the known finding D-04c (a deferred value that fails, or yields null, under a NON-NULL type is forced after every recover
+       scope is gone: the failure reaches the request level): `d04c_negation_witness` is the kernel-checked counterexample; the
+       decidable predicate of the class is `kfThunk ≠ []` of the algorithm's response;
+   (b) on worlds where a deferred value yields a func directly (`nested_thunk_witness`, new finding);
+   (c) in the ERROR component even outside (a) and (b): the algorithm forces a deferred value where it meets it and records the
+       errors inside it, also when a LATER failure nulls an ancestor of that position; the library (and M) never force such a
+       value, so those errors are absent. What holds — and what the harness compares (`errDeferred`) — is: the errors recorded
+       outside deferred values coincide, and M's remaining errors are among the algorithm's deferred ones. Proved: the exact
+       statement on worlds without deferred values (`plan_exec_eq_spec_nothunk`: same error LIST) and the data statement above;
+       the error statement with deferred values is NOT proved (needs effect accounting up to permutation in `SV`). -/
 
 /-! ### the negation witness for D-04c -/
 
@@ -236,6 +267,61 @@ theorem d04c_negation_witness :
     mEvents (run schema docKF "" [] worldKF) = ["call o", "call o.y", "call o.x", "force o.x"] := by
   decide +kernel
 
+/-! ## 4. the catch points of deferred values; mutations force per top-level field -/
+
+/-- **thunk_failure_nullable_absorbed.** Whatever happens inside a deferred value whose position has a NULLABLE type — the thunk
+fails, has another signature, or the completion of its result propagates a failure — its own catcher absorbs it: forcing never
+fails (the position becomes null, with the error recorded). -/
+theorem thunk_failure_nullable_absorbed (c : Ctx) (alt : Alt) (fuel : Nat) (cl : Closure) (st : MSt)
+    (h : cl.t.isNonNull = false) : (force c alt fuel cl st).1 ≠ .fail := by
+  unfold force
+  cases hcr : cl.r with
+  | none => simp [h]
+  | some r =>
+    cases r with
+    | err => simp [h]
+    | ok v =>
+      simp only [h, Bool.false_eq_true, if_false]
+      generalize mComplete c alt fuel true cl.t cl.rt cl.fid cl.fp cl.path v _ = z
+      obtain ⟨r1, st1⟩ := z
+      cases r1 <;> simp
+
+/-- **thunk_failure_nonnull_escapes** (known finding D-04c, M is bug-faithful). A deferred value under a NON-NULL type whose thunk
+fails (or is not a `func() (interface{}, error)`) is not absorbed anywhere: forcing fails with exactly that one error added, and a
+failed forcing is the end of the request — data none, the errors recorded so far and that one. -/
+theorem thunk_failure_nonnull_escapes (c : Ctx) (alt : Alt) (fuel : Nat) (cl : Closure) (st : MSt)
+    (h : cl.t.isNonNull = true) (hr : cl.r = some .err ∨ cl.r = none) :
+    (force c alt fuel cl st).1 = .fail ∧ (force c alt fuel cl st).2.errs = (cl.path, true) :: st.errs ∧
+    ∀ st' : MSt, MResponse.of (.fail, st') = .result none st'.errs.reverse st'.events.reverse := by
+  refine ⟨?_, ?_, fun _ => rfl⟩ <;> rcases hr with hr | hr <;> simp [force, hr, h, MSt.addErr, MSt.logEv]
+
+/-- **mutation_forcing_serial.** At the root of a mutation (every schema, plan, world, fuel; every instance of the sub-plan oracle):
+M's event log — resolver calls AND thunk calls — is the concatenation of one contiguous block per top-level field, in plan
+(= document) order; every event of a block lies under that field's response key. No resolver of a later top-level field runs before
+the earlier field's resolvers, the thunks it deferred and the resolvers run while forcing them are done. -/
+theorem mutation_forcing_serial (c : Ctx) (alt : Alt) (dfuel : Nat) (rt : String) (fuel : Nat) (fps : List FieldPlan)
+    (acc : List (String × PVal)) (st : MSt) :
+    ∃ new, (mRootMut c alt dfuel fuel rt fps acc st).2.events = new ++ st.events ∧ MSerial (fps.map (·.key)) new.reverse :=
+  mRootMut_serial c alt dfuel rt fuel fps acc st
+
+/-- **mutation_values_settled.** On a world where no deferred value yields a func directly, every value a top-level mutation field
+stores is closure-free when the next field starts: everything it deferred — at any depth, also what forcing itself deferred — was
+forced inside its block. (Without the premise the library leaves a func returned by a thunk to the final pass; so does M.) -/
+theorem mutation_values_settled (c : Ctx) (alt : Alt) (hw : flatWorld c.world = true) (ha : AltND alt) (dfuel : Nat)
+    (rt : String) (fuel : Nat) (fps : List FieldPlan) (st : MSt) (fs : List (String × PVal))
+    (h : (mRootMut c alt dfuel fuel rt fps [] st).1 = .ok fs) : ∀ x ∈ fs, NoDef x.2 :=
+  mRootMut_settled hw ha dfuel rt fuel fps [] st (fun _ h => by cases h) fs h
+
+/-- **mutation_forcing_serial_request.** `PlanQuery` + `ExecutePlan` on a mutation operation (flat world): the response's events are
+serial blocks over pairwise distinct top-level keys, and the data contains no closure — the final `dethunkMapDepthFirst` pass had
+nothing to do. -/
+theorem mutation_forcing_serial_request (s : Schema) (doc : Document) (opName : String) (inputs : Vars) (w : World) (fuel : Nat)
+    (hw : flatWorld w = true) (p : Plan) (hp : planQuery s doc opName = .ok p) (hmut : p.isMutation = true)
+    (data : Option (List (String × PVal))) (errs : List (Path × Bool)) (events : List Event)
+    (h : run s doc opName inputs w fuel = .result data errs events) :
+    ∃ keys : List String, keys.Nodup ∧ MSerial keys events ∧ ∀ fs, data = some fs → ∀ x ∈ fs, NoDef x.2 :=
+  run_mutation_serial s doc opName inputs w fuel hw p hp hmut data errs events h
+
 /-! ## Non-vacuity -/
 
 open Ex GqlModel.Exec.Ex in
@@ -259,6 +345,37 @@ example : Acyclic [("F", Definition.fragment ⟨"F", Loc.none⟩ (.named "Query"
 
 /-- worlds without func values exist (the example world without its deferred `m1`) -/
 example : worldFuncFree { GqlModel.Exec.Ex.world with rootFields := [("a", .value (.int 7)), ("o", .value (.ref 1))] } = true := by
+  decide +kernel
+
+/-- the example world (its mutation field `m1` resolves to a deferred value) is flat, and the example mutation is executed with the
+deferred value of `m1` forced — and the resolvers below it run — before `m2`'s resolver -/
+example : flatWorld GqlModel.Exec.Ex.world = true := by decide +kernel
+
+namespace Ex
+open GqlModel.Exec.Ex
+
+/-- `a` and `m2` resolve to a thunk that returns a thunk -/
+def worldNested : World :=
+  { world with rootFields := [("a", .value (.thunk (.ok (.thunk (.ok (.int 7)))))),
+                              ("m2", .value (.thunk (.ok (.thunk (.ok (.int 3))))))] }
+def docNestedQ : Document :=
+  { defs := [.operation .query none [] [] (.mk [fld "a"] Loc.none) Loc.none], loc := Loc.none }
+def docNestedM : Document :=
+  { defs := [.operation .mutation none [] [] (.mk [fld "m2"] Loc.none) Loc.none], loc := Loc.none }
+
+end Ex
+
+open Ex GqlModel.Exec.Ex in
+/-- **nested_thunk_witness** (why `flatWorld` is a premise; observed on the real library too — reported as a new finding): when a
+deferred value yields a func, a QUERY keeps the second closure in its data (`mData = none`: the result cannot be serialised), a
+MUTATION forces it in its final pass; the algorithm forces it in place in both cases. -/
+theorem nested_thunk_witness :
+    flatWorld worldNested = false ∧
+    (match mData (run schema docNestedQ "" [] worldNested) with | none => true | _ => false) = true ∧
+    mEvents (run schema docNestedQ "" [] worldNested) = ["call a", "force a"] ∧
+    (mData (run schema docNestedM "" [] worldNested) == some (some [("m2", JVal.int 3)])) = true ∧
+    mEvents (run schema docNestedM "" [] worldNested) = ["call m2", "force m2", "force m2"] ∧
+    (obsData (execute schema docNestedQ "" [] worldNested) == some [("a", JVal.int 7)]) = true := by
   decide +kernel
 
 end GqlModel.Plan
